@@ -480,7 +480,7 @@ func c14CaseVariant(r *Rand, s string) string {
 }
 
 func runC14(r *Run) {
-	r.Rule = "bundled data set: every spec of actionlint.PopularActions x {required only, each required input removed, undeclared input, all declared names in upper/random case, declared / undeclared outputs} and every outdated spec, enumerated completely through the real Linter. Local callees: generated action.yml / workflow_call interfaces (required x default, typed inputs, secrets, outputs) written to a scratch repository, call sites with random subsets, undeclared extras, letter-case variants, typed literal and expression values, secrets mapping / inherit, steps.<id>.outputs.* and needs.<job>.outputs.* references; reusable workflows are resolved both from the file and from the registered AST. Non-trivial = a distinct case in which the reference expects at least one report (or a dynamic-outputs / inherit exemption applies)."
+	r.Rule = "bundled data set: every spec of actionlint.PopularActions x {required only, each required input removed, undeclared input, all declared names in upper/random case, declared / undeclared outputs} and every outdated spec, enumerated completely through the real Linter. Local callees: generated action.yml / workflow_call interfaces (required x default, typed inputs, secrets, outputs) written to a scratch repository, call sites with random subsets, undeclared extras, letter-case variants, typed literal, single-expression and multi-expression template values (calls containing a template with >= 2 expressions are linted 8 times with fresh Linters per derivation mode and must give the same diagnostics each time), secrets mapping / inherit, steps.<id>.outputs.* and needs.<job>.outputs.* references; reusable workflows are resolved both from the file and from the registered AST. Non-trivial = a distinct case in which the reference expects at least one report (or a dynamic-outputs / inherit exemption applies)."
 	r.Assume("diagnostics are identified by kind and message shape (regular expressions in c14.go); a diagnostic of a generated call site that matches none of them is itself reported")
 	r.Assume("outdated specs have no declared interface: exactly the 'too old' diagnostic and no input/output report is expected")
 	r.Assume("local callees are well-formed: generated action.yml files are valid by construction, generated reusable workflows must lint clean on their own (cases whose callee does not are skipped and counted)")
@@ -534,9 +534,15 @@ func runC14(r *Run) {
 		"workflow_secrets_inherit_with_required_secret", "workflow_required_supplied_in_other_case", "workflow_typed_value_assignable", "workflow_typed_value_unassignable",
 		"workflow_mode_file", "workflow_mode_ast", "workflow_optional_with_default_not_supplied", "workflow_output_declared_ref_other_case",
 		"bundled_dynamic_outputs_specs", "outdated_specs_reported_too_old",
+		"workflow_calls_with_multi_expression_template", "workflow_repeated_lints",
 	} {
 		if r.Counter(k) == 0 {
 			r.Inconclusive("coverage floor not met: " + k + " never observed")
+		}
+	}
+	for _, k := range []string{"string<-template", "number<-template", "boolean<-template"} {
+		if !r.SetHas("multi_template_pairs", k) {
+			r.Inconclusive("no template with two or more expressions was given to an input of type " + k)
 		}
 	}
 	if gen, bad := r.Counter("workflow_callees_generated"), r.Counter("workflow_callees_not_clean"); gen == 0 || bad*10 > gen {
